@@ -140,18 +140,34 @@ func (el *ErrorListener) ReportContextSensitivity(recognizer antlr.Parser, dfa *
 func ParseZqlString(text string) string {
 	t := strings.TrimSuffix(strings.TrimPrefix(text, `"`), `"`)
 
-	//remove golang string back slash escaping
-	t = strings.Replace(t, `\\`, `\`, -1)
+	// remove ZitiQL string escaping in a single pass, so that each escape sequence is read exactly once
+	// (an escaped backslash followed by a letter is not re-read as a control character escape)
+	buf := make([]byte, 0, len(t))
+	for i := 0; i < len(t); i++ {
+		c := t[i]
+		if c == '\\' && i+1 < len(t) {
+			switch t[i+1] {
+			case '\\', '"':
+				c = t[i+1]
+				i++
+			case 'f':
+				c = '\f'
+				i++
+			case 'n':
+				c = '\n'
+				i++
+			case 'r':
+				c = '\r'
+				i++
+			case 't':
+				c = '\t'
+				i++
+			}
+		}
+		buf = append(buf, c)
+	}
 
-	//remove ZitiQL string escaping
-	t = strings.Replace(t, `\"`, `"`, -1)
-	t = strings.Replace(t, `\f`, "\f", -1)
-	t = strings.Replace(t, `\n`, "\n", -1)
-	t = strings.Replace(t, `\r`, "\r", -1)
-	t = strings.Replace(t, `\t`, "\t", -1)
-	t = strings.Replace(t, `\\`, `\`, -1)
-
-	return t
+	return string(buf)
 }
 
 var dateTimeStripper = regexp.MustCompile(`^\s*datetime\(\s*(.*?)\s*\)\s*$`)
